@@ -480,69 +480,152 @@ def _peak_search(ck: Checker, prog: Program):
 
 
 def _r6_outer(ck: Checker, prog: Program, inner, outer):
-    calls = calls_in(outer.node, inner.name)
-    if len(calls) != 1:
-        raise AnalysisError(f"{OUTER}: expected one call of the inner routine")
-    c = calls[0]
-    bound = bind_call(c, inner.params)
-    rd = reaching(outer)
-    for p in inner.params:
-        a = bound.get(p)
-        if p == "hvsr":
-            # member of the object: the loop variable over [hvsr] / hvsr.hvsrs
-            ok = isinstance(a, ast.Name)
+    """Outer routine as a decision table over the kind of object: which members are examined, what the inner
+    routine receives for each, that the peaks are re-evaluated through the object first, and that the value
+    returned is the maximum over the members."""
+    from ..pathtable import PathTable, literals, holds
+    R = lambda n: sp.Symbol(n, real=True)   # noqa: E731
+    H = R("hvsr")
+    F = sp.Function
+    base = pkg_call_hook(prog, outer.module)
+
+    def hook(call, T):
+        if isinstance(call.func, ast.Attribute) and call.func.attr == "update_peaks_bounded":
+            m = prog.func("hvsr_traditional.HvsrTraditional.update_peaks_bounded")
+            b = bind_call(call, m.params, skip_first=True)
+            return F("update_peaks_bounded")(T.tr(call.func.value), *[T.tr(b[p]) if p in b else F("default")(sp.Symbol(p)) for p in m.params[1:]])
+        return base(call, T)
+
+    pt = PathTable(prog, outer.module, call_hook=hook, unroll=True, structured=True, opaque={inner.name})
+    leaves = pt.leaves(outer.node.body)
+    tof = F("type_of")(H)
+    want_inner = lambda item: F(inner.name)(item, *[R(p) for p in inner.params[1:]])   # noqa: E731
+    n_checked = 0
+    for kind, members in (("HvsrTraditional", sp.Tuple(H)), ("HvsrAzimuthal", F("attr_hvsrs")(H)), ("<other>", None)):
+        live = []
+        for l in leaves:
+            vals = [holds(x, {tof: sp.Symbol(kind)}) for x in literals(l)]
+            if any(v is None for v in vals):
+                raise AnalysisError(f"{OUTER}: decision `{[x for x, v in zip(literals(l), vals) if v is None][0]}` is not about the kind of object")
+            if all(vals):
+                live.append(l)
+        if len(live) != 1:
+            raise AnalysisError(f"{OUTER}: {len(live)} paths for a {kind} object")
+        l = live[0]
+        if members is None:
+            if l.exit == "raise":
+                ck.ok("C06.R6", OUTER, "other objects are refused", nontrivial=False)
+            else:
+                ck.violation("C06.R6", OUTER, "members", "an object that is neither HvsrTraditional nor HvsrAzimuthal is accepted", loc=outer.loc())
+            continue
+        if l.exit != "return":
+            ck.violation("C06.R6", OUTER, f"{kind}: no result", f"a {kind} object does not reach the rejection", loc=outer.loc())
+            continue
+        # the sweep over the members: a loop whose body calls the inner routine, or a comprehension of such calls
+        sweep_pos, got_members, got_call, maximum = None, None, None, False
+        ret = sp.sympify(l.value) if l.value is not None else None
+        for i, ev in enumerate(l.events):
+            if ev[0] == "loop" and isinstance(ev[3], ast.For) and calls_in(ev[3], inner.name):
+                loop = ev[3]
+                if any(isinstance(x, (ast.Break, ast.Continue, ast.Return)) for x in ast.walk(loop)):
+                    ck.violation("C06.R6", OUTER, "loop over azimuths", "the sweep over the members may stop or skip one", loc=outer.loc(loop))
+                    return
+                env0, _ = l.snaps[id(loop)]
+                T = pt._T(dict(env0))
+                got_members = T.tr(loop.iter)
+                if not isinstance(loop.target, ast.Name):
+                    raise AnalysisError(f"{OUTER}: loop target")
+                item = R("<member>")
+                benv = dict(env0)
+                for nm in assigned_names_of(loop):
+                    benv[nm] = R(nm)
+                benv[loop.target.id] = item
+                sub = PathTable(prog, outer.module, call_hook=hook, env=benv, unroll=True, structured=True, opaque={inner.name})
+                bl = sub.leaves(loop.body)
+                mx = ret if ret is not None and ret.is_Symbol else None
+                calls, upd = set(), []
+                for b in bl:
+                    for x in list(b.env.values()) + [e[2] for e in b.events]:
+                        for c in sp.sympify(x).atoms(sp.Function) if hasattr(x, "atoms") else ():
+                            if c.func.__name__ == inner.name:
+                                calls.add(c)
+                    if mx is not None:
+                        upd.append((literals(b), b.env.get(mx.name)))
+                if len(calls) == 1:
+                    got_call = next(iter(calls)).subs(item, R("<member>"))
+                # running maximum: mx = max(mx, it)   or   if it > mx: mx = it
+                if mx is not None and got_call is not None and sp.sympify(env0.get(mx.name)) == 0:
+                    it = next(iter(calls))
+                    if len(upd) == 1 and upd[0][1] in (sp.Max(mx, it), F("max")(mx, it), F("max")(it, mx)):
+                        maximum = True
+                    elif len(upd) == 2:
+                        by = {True: None, False: None}
+                        for lits, v in upd:
+                            if len(lits) != 1:
+                                break
+                            c = lits[0]
+                            if equal(c.lhs - c.rhs, it - mx) and isinstance(c, (sp.Gt, sp.Ge)) or equal(c.lhs - c.rhs, mx - it) and isinstance(c, (sp.Lt, sp.Le)):
+                                by[True] = v
+                            elif equal(c.lhs - c.rhs, it - mx) and isinstance(c, (sp.Lt, sp.Le)) or equal(c.lhs - c.rhs, mx - it) and isinstance(c, (sp.Gt, sp.Ge)):
+                                by[False] = v
+                        maximum = by[True] == it and by[False] == mx
+                sweep_pos = i
+                break
+        if sweep_pos is None and ret is not None:
+            # comprehension form: max([inner(m, ...) for m in members], default=0) / max(0, *[...])
+            comps = [c for c in ret.atoms(sp.Function) if c.func.__name__ == "comp" and any(k.func.__name__ == inner.name for k in c.atoms(sp.Function))]
+            if len(comps) == 1:
+                c = comps[0]
+                gens = [g for g in c.args[1:] if getattr(g.func, "__name__", "") == "gen"]
+                if len(gens) == 1 and len(c.args) == 2:
+                    var, got_members = gens[0].args[0], gens[0].args[1]
+                    got_call = c.args[0].subs(var, R("<member>"))
+                    maximum = ret in (F("max")(c, F("kw_default")(sp.Integer(0))), F("max")(c, sp.Integer(0)), sp.Max(F("max")(c), 0))
+                sweep_pos = len(l.events)
+        if sweep_pos is None:
+            raise AnalysisError(f"{OUTER}: the sweep over the members was not recognised for a {kind} object")
+        n_checked += 1
+        if got_members is not None and equal_struct(got_members, members, {tof: sp.Symbol(kind)}):
+            ck.ok("C06.R6", OUTER, f"{kind}: members examined = {members}", nontrivial=False)
         else:
-            ok = isinstance(a, ast.Name) and a.id == p and rd.only_param(p, c)
-        if ok:
-            ck.ok("C06.R6", OUTER, f"{p}={unparse(a)}", nontrivial=(p != "hvsr"))
+            ck.violation("C06.R6", OUTER, "members", f"for a {kind} object the members examined are {got_members}, not {members}", loc=outer.loc())
+        want = want_inner(R("<member>"))
+        if got_call == want:
+            ck.ok("C06.R6", OUTER, f"{kind}: inner routine receives the caller's n, max_iterations and distributions")
+        elif got_call is None:
+            raise AnalysisError(f"{OUTER}: call of the inner routine not recognised")
         else:
-            ck.violation("C06.R6", OUTER, f"argument {p}",
-                         f"the inner routine receives {p}={unparse(a) if a is not None else '<default>'} instead of the caller's `{p}`", loc=outer.loc(c))
-    # the loop covers every member; result is the maximum
-    loop = parent_of(c)
-    while loop is not None and not isinstance(loop, ast.For):
-        loop = parent_of(loop)
-    if loop is None or unparse(loop.iter) != "hvsrs" or any(isinstance(x, (ast.Break, ast.Continue)) for x in ast.walk(loop)):
-        ck.violation("C06.R6", OUTER, "loop over azimuths", "the rejection is not applied to every member in turn", loc=outer.loc())
-    else:
-        ck.ok("C06.R6", OUTER, norm_key(loop), nontrivial=False)
-    hv = {}
-    for st in own_nodes(outer.node):
-        if isinstance(st, ast.Assign) and unparse(st.targets[0]) == "hvsrs":
-            hv[unparse(st.value)] = st
-    if set(hv) == {"[hvsr]", "hvsr.hvsrs"}:
-        ck.ok("C06.R6", OUTER, "hvsrs = [hvsr] | hvsr.hvsrs", nontrivial=False)
-    else:
-        ck.violation("C06.R6", OUTER, "members", f"members examined are {sorted(hv)}", loc=outer.loc())
-    # peak search on entry, through the object, before the loop, with the caller's range
-    ups = calls_in(outer.node, "update_peaks_bounded")
-    cfg = cfg_of(outer)
-    idom = cfg.dominators()
-    good = False
-    for u in ups:
-        st = u
-        while not isinstance(st, ast.stmt):
-            st = parent_of(st)
-        b = {k.arg: unparse(k.value) for k in u.keywords}
-        if b.get("search_range_in_hz") == "search_range_in_hz" and b.get("find_peaks_kwargs") == "find_peaks_kwargs" \
-                and cfg.dominates(cfg.node(st), cfg.node(parent_of(c)) if cfg.node(parent_of(c)) is not None else cfg.node(loop), idom):
-            good = True
-    if good:
-        ck.ok("C06.R6", OUTER, "peak search with the caller's range precedes the first iteration")
-    else:
-        ck.violation("C06.R6", OUTER, "peak search on entry", "peaks are not re-evaluated with the caller's search range before the iterations", loc=outer.loc())
-    # maximum over members
-    rets = [r for r in own_nodes(outer.node) if isinstance(r, ast.Return)]
-    mx = None
-    for st in ast.walk(loop) if loop is not None else []:
-        if isinstance(st, ast.If) and isinstance(st.test, ast.Compare) and isinstance(st.test.ops[0], (ast.Gt, ast.GtE)) \
-                and len(st.body) == 1 and isinstance(st.body[0], ast.Assign) \
-                and unparse(st.body[0].targets[0]) == unparse(st.test.comparators[0]) and unparse(st.body[0].value) == unparse(st.test.left):
-            mx = unparse(st.test.comparators[0])
-        if isinstance(st, ast.Assign) and isinstance(st.value, ast.Call) and call_name(st.value) == "max" and len(st.value.args) == 2:
-            mx = unparse(st.targets[0])
-    init_ok = any(isinstance(st, ast.Assign) and unparse(st.targets[0]) == mx and unparse(st.value) == "0" for st in outer.node.body)
-    if mx and init_ok and len(rets) == 1 and unparse(rets[0].value) == mx:
-        ck.ok("C06.R6", OUTER, f"returns max over members ({mx})")
-    else:
-        ck.violation("C06.R6", OUTER, "returned iteration count", "the value returned is not the maximum iteration count over the members", loc=outer.loc())
+            for p, g, w in zip(inner.params, got_call.args, want.args):
+                if g != w:
+                    ck.violation("C06.R6", OUTER, f"argument {p}", f"the inner routine receives {p}={g} instead of the caller's `{w}`", loc=outer.loc())
+        if maximum:
+            ck.ok("C06.R6", OUTER, f"{kind}: returns the maximum over the members")
+        else:
+            ck.violation("C06.R6", OUTER, "returned iteration count", f"the value returned ({ret}) is not the maximum iteration count over the members", loc=outer.loc())
+        # peaks re-evaluated through the object, with the caller's range, before the sweep
+        wantu = F("update_peaks_bounded")(H, R("search_range_in_hz"), R("find_peaks_kwargs"))
+        if any(ev[0] == "call" and ev[2] == wantu for ev in l.events[:sweep_pos]):
+            ck.ok("C06.R6", OUTER, f"{kind}: peak search with the caller's range precedes the first iteration")
+        else:
+            ck.violation("C06.R6", OUTER, "peak search on entry", "peaks are not re-evaluated through the object with the caller's search range before the iterations", loc=outer.loc())
+    if n_checked != 2:
+        raise AnalysisError(f"{OUTER}: kinds of object checked: {n_checked}")
+
+
+def assigned_names_of(st):
+    from ..pathtable import assigned_names
+    return assigned_names(st)
+
+
+def equal_struct(a, b, assign=None) -> bool:
+    from ..pathtable import holds
+    a, b = sp.sympify(a), sp.sympify(b)
+    if isinstance(a, sp.Piecewise) and assign is not None:
+        for e, c in a.args:
+            v = True if c == sp.true else holds(c, assign) if isinstance(c, (sp.Eq, sp.Ne)) else None
+            if v is None:
+                return False
+            if v:
+                return equal_struct(e, b, assign)
+        return False
+    return a == b
